@@ -18,7 +18,8 @@ Per run:
      translation must be killed by a committed obligation, except the mutants committed as unkillable (with the reason)
      under "adequacy" in c15_nesting.json.  A surviving mutant that is not on that list is a hole opened by a source change.
 """
-import json, math, os, re, time
+import json, math, os, random, re, time
+from fractions import Fraction
 from concurrent.futures import ThreadPoolExecutor
 from harness import lib
 from harness.translate import models_dsl as M, models_dsl_norm as N
@@ -109,9 +110,11 @@ def run(ctx):
         'numerical runs use short times (the number of time steps is capped) so that the quick tier stays within minutes',
         'non-negativity is asserted up to -1e-9*max on a grid that resolves the model: a run with a negative entry is repeated on grids of about 2x and 4x the points; it is a violation unless the negative part vanishes or shrinks by at least 0.6 per refinement and ends below 1e-3 of the largest entry (observed on the unchanged tree: factor 0.25-0.5 per doubling, i.e. discretisation error of the central differences for migration/selection)',
         'nesting pairs agree to 1e-10 relative to the largest entry (observed: 0 or ~1e-16 on the unchanged tree)',
+        'concrete semantics: the real function and Model/ProgSem.run_prog (128-bit software floats) agree on every unmasked entry to 1e-7 of the largest entry (observed: <= 1e-11) at timescale_factor = 0.125, grids of 6-10 points, sample sizes 2-4, dyadic in-bounds parameters (nu in [1/4,4], m in [0,4], gamma in [-4,2], fractions in [1/8,7/8], times <= 1 and about 20 time steps per model)',
         'label exchange of a symmetric model holds up to the operator-splitting error of the alternating-direction scheme; required: error at timescale_factor/64 <= 0.35 x error at timescale_factor=1e-3 (observed ratios 0.006-0.15, ideal 1/64), or below 1e-9']
     ctx.trusted += [
-        'Section hypotheses of Proofs/DSLProofs.v: H_T0 (integration of zero duration returns the density; proved for the drivers of Model/NDSweep.v as C15_zero_duration_const/_tdep), H_pulse0 (a pulse of proportion 0 moves nothing; checked numerically through the f=0 nesting pairs)',
+        'Section hypotheses H_T0 / H_pulse0 of Proofs/DSLProofs.v: PROVED for the concrete operations of Model/ProgSem.v (Props/C15Concrete.v: C15_concrete_H_T0, C15_concrete_H_pulse0); they remain hypotheses only of the abstract statements of Props/C15.v',
+        'concrete semantics (Model/ProgSem.v): composition of the executable models of C01 (phi_1D), C06 (split / admixture / pulses), C02-C04 (integrate_const / integrate_tdep, time-step rule), C05 (from_phi, from_phi_inbreeding); compared with the real library function on every run for every model returning a spectrum. Not modelled: the ValueError tests of Integration.py on negative sizes / rates and on frozen populations with migration (outside the documented bounds)',
         'hypotheses E_* of the relabelling theorem: the numerical layer commutes with exchanging population labels (true of the diffusion, approximately of the alternating-direction scheme; measured at two time steps)',
         'the translator harness/translate/models_dsl.py (fail-closed) and the parameter kinds derived from the declared names',
         'FunctionalExtensionality (standard library axiom) in the soundness proofs']
@@ -251,6 +254,16 @@ def run(ctx):
 
     # ---- (4) mutation adequacy of the committed list (Python mirror; cross-checked against Coq) -----------------
     adequacy(ctx, data, progs, broken_models, wf_res, wf_meta, nest_ok, sym_ok)
+
+    # ---- (5) concrete semantics: run_prog on the translated programs == the real functions ---------------------
+    if os.environ.get('C15_SKIP_CONCRETE') != '1':
+        if os.path.exists(os.path.join(lib.THEORIES, 'Props', 'C15Concrete.v')) and not ctx.replay:
+            n_static = ctx.stats.get('static_theorems', 0)
+            ctx.check_props_file(os.path.join('Props', 'C15Concrete.v'))
+            ctx.stats['static_theorems'] = n_static + ctx.stats.get('static_theorems', 0)
+        concrete(ctx, progs, len(progs) + len(broken_models))
+    if os.environ.get('C15_ONLY_CONCRETE') == '1':        # development only
+        return
 
     # ---- (3) numerical predicates on the implementation ------------------------------------------------
     rng = ctx.rng
@@ -536,6 +549,146 @@ def run(ctx):
             if not any(v['key'] == 'symmetry:%s' % sm['model'].split(':')[-1] for v in ctx.violations):
                 ctx.violation('program of %s is no longer invariant under the committed label exchange' % sm['model'], data={'symmetric': sm},
                               key=None, no_input=True, broken='equiv:%s' % sm['model'])
+
+# ------------------------------------------------------------------------------------------------
+# (5) concrete semantics of the programs: Model/ProgSem.run_prog against the real library function
+CONC_HEADER = '\n'.join(['From Coq Require Import QArith ZArith List Bool.',
+                         'From Dadi Require Import Model.DSL Model.ProgSem Model.ProgSemCheck.',
+                         'Import ListNotations.', 'Open Scope nat_scope.'])
+CONC_TOL = 1e-7
+CONC_TF = 0.125          # Integration.timescale_factor of the concrete-semantics runs (dyadic; few time steps per epoch)
+CONC_SHARDS = 16
+
+def gen_concrete_params(rng, names, tf, steps):
+    """in-bounds parameter vector with dyadic entries (exact in float64 and in the model): nu in [1/4,4], m in [0,4], gamma in [-4,2],
+    fractions in [1/8,7/8]; every time <= 1 and short enough that the whole model takes about `steps` time steps at timescale_factor tf"""
+    vals = {}
+    for n in names:
+        k = M.kind_of(n)
+        if k == 'pos':
+            vals[n] = max(0.25, round(2 ** rng.uniform(-2, 2) * 64) / 64.0)
+        elif k == 'frac':
+            vals[n] = rng.randint(8, 56) / 64.0
+        elif n.startswith('gamma'):
+            vals[n] = rng.randint(-64, 32) / 16.0
+        elif k == 'nonneg' and not n.startswith('T'):
+            vals[n] = rng.randint(0, 64) / 16.0
+    nus = [v for n, v in vals.items() if M.kind_of(n) == 'pos'] + [1.0]
+    fr = [v for n, v in vals.items() if M.kind_of(n) == 'frac' and n != 'F']
+    shrink = min([min(v, 1 - v) for v in fr] + [1.0])       # s and 1-s scale population sizes
+    ms = sum(v for n, v in vals.items() if M.kind_of(n) == 'nonneg' and not n.startswith('T'))
+    gs = max([abs(v) for n, v in vals.items() if n.startswith('gamma')] + [0.0])
+    rate = max(0.25 / (min(nus) * shrink), ms, 0.25 * gs)
+    nT = max(1, sum(1 for n in names if n.startswith('T')))
+    cap = min(1.0, steps * tf / rate / nT)
+    for n in names:
+        if n.startswith('T'):
+            vals[n] = rng.randint(0, max(1, int(cap * 1024))) / 1024.0
+        if n not in vals:
+            vals[n] = rng.randint(8, 56) / 64.0
+    return [vals[n] for n in names]
+
+def concrete_case_text(r, job, res):
+    return ('{| mc_prog := %s; mc_params := %s; mc_pts := %d; mc_grid := %s; mc_ns := %s; mc_tf := %s; mc_mask := %s; mc_impl := %s |}' % (
+        M.coq_prog(r['prog']), lib.ql(job['params']), job['pts'], lib.zzl(res['grid']), lib.natl(job['ns']), lib.q(job['tf']),
+        lib.bl(res['mask']), lib.zzl(res['data'])))
+
+def concrete(ctx, progs, total_models):
+    """every library model with a spectrum: the REAL function and run_prog (NumD, inside Coq) on the program translated from the
+    current source, same parameter vector / grid / sample sizes / timescale_factor; all unmasked entries at 1e-7 of the largest"""
+    t0 = time.time()
+    rng = random.Random('C15-concrete-%d' % ctx.seed)      # own stream: the other parts of the check keep their inputs
+    nvec = ctx.pick(1, 3)
+    jobs, meta, skipped = [], {}, {}
+    for key, r in sorted(progs.items()):
+        if r['kind'] != 'sfs':
+            skipped[key] = 'returns an ms command string, not a spectrum'
+            continue
+        d = dims_of(r['prog'])
+        for v in range(nvec):
+            p = gen_concrete_params(rng, r['param_names'], CONC_TF, 20 if d < 3 else 12)
+            if uses_inbreeding(r['prog']):
+                ns = [rng.choice([2, 4]) for _ in range(d)]
+            else:
+                ns = [rng.choice([2, 3, 4]) for _ in range(d)]
+            pts = 6 if d >= 3 else rng.choice([6, 7, 8, 9, 10])
+            if d >= 3 and not ctx.quick and v == 2:
+                pts = 7
+            jid = 'concrete|%s|%d' % (key, v)
+            jobs.append({'id': jid, 'kind': 'concrete', 'file': r['file'], 'name': r['name'], 'params': p, 'ns': ns, 'pts': pts,
+                         'tf': CONC_TF, '_cost': (pts ** d) * 30 + 50})
+            meta[jid] = (key, r)
+    if ctx.replay:
+        rp = json.load(open(ctx.replay))
+        inp = rp.get('input') or {}
+        j = inp.get('job') if isinstance(inp, dict) else None
+        if not (j and j.get('kind') == 'concrete'):
+            return
+        key = '%s:%s' % (j['file'], j['name'])
+        if key not in progs:
+            ctx.obligation('concrete %s' % j['id'], False, 'correspondence', 'model cannot be translated')
+            return
+        jobs = [dict(j)]; meta = {j['id']: (key, progs[key])}
+    res = run_jobs(jobs, nproc=6)
+    t_impl = time.time() - t0
+    cases, cmeta = [], {}
+    order = sorted(range(len(jobs)), key=lambda k: -jobs[k]['_cost'] if '_cost' in jobs[k] else 0)
+    nsh = min(CONC_SHARDS, max(1, len(order)))
+    arranged = [order[i] for s_ in range(nsh) for i in range(s_, len(order), nsh)]
+    for cid, k in enumerate(arranged):
+        job = {a: b for a, b in jobs[k].items() if not a.startswith('_')}
+        r_ = res.get(job['id'], {'error': 'no result'})
+        key, r = meta[job['id']]
+        ctx.case(signature=('concrete', key, tuple(job['params'])))
+        if 'error' in r_ or not r_.get('finite'):
+            why = r_.get('error', 'non-finite entries')
+            ctx.obligation('concrete %s: real function returns a finite spectrum' % job['id'], False, 'correspondence', why)
+            ctx.violation('%s%r ns=%s pts=%d timescale_factor=%g: %s' % (r['name'], tuple(job['params']), job['ns'], job['pts'], job['tf'], why),
+                          data={'job': job, 'result': {k2: v2 for k2, v2 in r_.items() if k2 not in ('data', 'mask', 'grid')}}, key='model-raises:%s' % r['name'])
+            continue
+        if r_.get('use_delj_trick') or r_.get('use_old_timestep') or r_.get('cuda'):
+            ctx.obligation('concrete %s: Integration defaults (use_delj_trick=False, use_old_timestep=False, no CUDA)' % job['id'], False, 'correspondence',
+                           'the library default changed: %r' % {k2: r_.get(k2) for k2 in ('use_delj_trick', 'use_old_timestep', 'cuda')})
+            continue
+        cases.append((cid, concrete_case_text(r, job, r_)))
+        cmeta[cid] = (job, r_, key, r)
+    shard = max(1, -(-len(arranged) // nsh))
+    t1 = time.time()
+    cres = ctx.coq_cases('concrete', CONC_HEADER, cases, '(mcheck %s)' % lib.q(Fraction(1, 10 ** 7)), '1e-7 of the largest entry',
+                         shard=shard, timeout=900, kind='concrete semantics') if cases else {}
+    t_coq = time.time() - t1
+    worst = None; covered = set(); failed = []
+    for cid, (job, r_, key, r) in sorted(cmeta.items()):
+        ok, e = cres.get(cid, (False, 99))
+        name = r['name']
+        codes = {1: 'run_prog returns None (the model refuses / out of fuel)', 2: 'result length differs', 3: 'the program fails the static check prog_ok',
+                 99: 'the Coq case file did not evaluate'}
+        detail = '' if ok else (codes.get(e) if e in codes else 'relative difference 2^%d' % e)
+        ctx.obligation('concrete %s: run_prog (Model/ProgSem.v, NumD) == %s%r ns=%s pts=%d' % (job['id'], name, tuple(job['params']), job['ns'], job['pts']),
+                       ok, 'correspondence', detail)
+        if ok:
+            covered.add(key)
+            if e > -9000:
+                worst = e if worst is None else max(worst, e)
+        else:
+            failed.append(key)
+            ctx.violation('concrete semantics: %s%r (ns=%s, pts=%d, timescale_factor=%g) returns a spectrum that differs from the composition of the '
+                          'verified building-block models run on its translated program: %s' % (name, tuple(job['params']), job['ns'], job['pts'], job['tf'], detail),
+                          data={'job': job, 'shape': r_.get('shape')}, key='concrete:%s' % name)
+    covered -= set(failed)
+    if not ctx.replay:
+        ctx.stats['concrete_semantics'] = {
+            'models_covered': len(covered), 'of_library_functions': total_models,
+            'not_covered': dict(sorted(skipped.items())) | {k: 'disagreement or evaluation failure' for k in sorted(set(failed))},
+            'cases': len(cmeta), 'timescale_factor': CONC_TF, 'tolerance': CONC_TOL,
+            'max_observed_rel_error': None if worst is None else 2.0 ** (worst + 1),
+            'seconds_real_code': round(t_impl, 1), 'seconds_coq': round(t_coq, 1)}
+        ctx.notes.append('concrete semantics (Model/ProgSem.v) covers %d of %d library functions; %d cases, max observed relative error %s; not covered: %s' % (
+            len(covered), total_models, len(cmeta), 'n/a' if worst is None else '< 2^%d' % (worst + 1),
+            '; '.join('%s (%s)' % (k.split(':')[-1], w) for k, w in sorted(skipped.items())) or 'none'))
+        ctx.obligation('concrete semantics covers every library function that returns a spectrum (%d of %d; the others return ms command strings)' % (
+            len(covered), total_models), len(covered) + len(skipped) >= len(progs) and not failed, 'correspondence',
+            '; '.join(sorted(set(failed))[:6]))
 
 def adequacy(ctx, data, progs, broken_models, wf_res, wf_meta, nest_ok, sym_ok):
     """every single-occurrence mutant of the current programs must be killed by a committed obligation or be committed as unkillable"""
